@@ -9,6 +9,7 @@ import LfsModel.TQTraceProofs
 import LfsModel.TQRetry
 import LfsModel.TQErr
 import LfsModel.TQConcat
+import LfsModel.TQAbort
 
 namespace C06
 open TQ
@@ -131,5 +132,22 @@ theorem concat_left_bounded (now : Int) (b other : List TQConcat.Item) (size : N
 /-- non-vacuity (the shape of seeded change C06/4): two delayed retries, three ready objects, batch size 2 -/
 example : TQConcat.concat 100 [(1, 500), (2, 700)] [(3, 0), (4, 0), (5, 0)] 2 =
     ([(3, 0), (4, 0)], [(1, 500), (2, 700), (5, 0)]) := by decide
+
+/-! ### the counter Wait() blocks on (abortableWaitGroup) -/
+
+/-- once the queue has given up, waiting for it returns — whatever the producer adds afterwards and
+    whatever transfers still report -/
+theorem wait_returns_once_the_queue_gave_up (pre post : List TQAbort.Op)
+    (hpre : ∀ o ∈ pre, o ≠ .abort) (hpost : ∀ o ∈ post, o ≠ .abort) :
+    TQAbort.waitReturns (TQAbort.run {} (pre ++ [.abort] ++ post)) = true :=
+  TQAbort.wait_returns_after_abort pre post hpre hpost
+
+/-- … and while it has not, exactly when everything that was added has been finished -/
+theorem wait_returns_when_all_is_finished (ops : List TQAbort.Op) (h : ∀ o ∈ ops, o ≠ .abort) :
+    TQAbort.waitReturns (TQAbort.run {} ops) = true ↔ (TQAbort.run {} ops).counter = 0 :=
+  TQAbort.wait_returns_iff_balanced ops h
+
+/-- non-vacuity: two adds, the abort, a late add, a late done -/
+example : TQAbort.waitReturns (TQAbort.run {} [.add 1, .add 1, .abort, .add 1, .done]) = true := by decide
 
 end C06
